@@ -53,7 +53,14 @@ try:
         else:
             for fn, ps in allfn.items():
                 if fn.startswith(mod + "."): extra |= ps
-    props = list(dict.fromkeys(props + sorted(extra)))
+    # with the modular closure nearly every property reaches the core helpers: besides the named property run
+    # the (at most three) cheapest other checks that cover a touched function
+    wall = {}
+    for f in glob.glob("/verif/evidence/C*.json"):
+        e = json.load(open(f))
+        wall[e["property_id"]] = e.get("wall_s", 999)
+    extra = sorted(extra - set(props), key=lambda q: wall.get(q, 999))[:3]
+    props = list(dict.fromkeys(props + extra))
     print(rid, "touched:", sorted(q for _, q in touched), "-> checks:", props)
     res = {}
     for p in props:
